@@ -576,6 +576,18 @@ func (d *errL2) Transfer(n *Node, s Store) []Store {
 
 func (d *errL2) Refine(e *Edge, s Store) (Store, bool) {
 	info := d.f.Pkg.TypesInfo
+	// switch classify(err) { case K: ... }: on a matched non-default case the
+	// error was classified by value (status.Code(err) and the like), which is
+	// deliberate handling. The zero class (codes.OK) is the nil error.
+	if e.Tag != nil && e.Branch > 0 && e.Cond != nil {
+		if call, ok := ast.Unparen(e.Tag).(*ast.CallExpr); ok && len(call.Args) == 1 {
+			if v, ok := identObj(info, call.Args[0]).(*types.Var); ok && d.ev.vars[v] {
+				if k, isK := constInt(info, e.Cond); !isK || k != 0 {
+					return s.With("V:"+varKey(v), "H"), true
+				}
+			}
+		}
+	}
 	at, ok := edgeAtom(info, e)
 	if !ok {
 		return s, true
